@@ -281,6 +281,23 @@ def _case(repo, it, S, spec):
                     if k3 != "ok" or plain(d3) != plain(d):
                         out.append(("export_parent", f"{desc}: exported-parent round trip changes the object: "
                                     f"{_diff(plain(d), plain(d3)) if k3 == 'ok' else d3}", f_from.qual))
+                # the data-model leg of the same trip: Schema().load of the dictionary with its exported parent, converted without an
+                # explicit parent (ParentModel.to_parent rebuilds it) - the sibling of from_dict's own parent reconstruction
+                n += 1
+                try:
+                    model = schema_load(it, repo, "AnnotationCollectionModel", d)
+                    fconv = repo.fn("io.models:AnnotationCollectionModel.to_annotation_collection")
+                    k4, back2 = run(it, fconv, [], {}, model)
+                    if k4 != "ok":
+                        out.append(("export_parent (model)", f"{desc}: AnnotationCollectionModel.Schema().load(dictionary with exported parent)"
+                                    f".to_annotation_collection() raises {back2}", fconv.qual))
+                    else:
+                        k5, d5 = run(it, f_to, [], {"export_parent": True}, back2)
+                        if k5 != "ok" or plain(d5) != plain(d):
+                            out.append(("export_parent (model)", f"{desc}: the collection re-built through the data model from its exported parent differs: "
+                                        f"{_diff(plain(d), plain(d5)) if k5 == 'ok' else d5}", "io.models:ParentModel.to_parent"))
+                except ValueError as ex:
+                    out.append(("model load", f"{desc}: {ex}", f_to.qual))
             # an explicitly passed parent takes precedence over the one embedded in the dictionary (documented override): the same
             # dictionary with and without the embedded parent, imported onto another parent, gives the same collection
             if k == "ok" and parent is not None:
